@@ -483,7 +483,7 @@ def decimal_op(op, a, b, pos):
 
 def math_func(func, pos, *values):
     try:
-        return ValueDecimal(func(*values))
+        return ValueDecimal(float(func(*values)))
     except (ValueError, OverflowError):
         raise CklRuntimeError(
             ValueString("ERROR"),
